@@ -9,7 +9,8 @@ LEVEL = "model_checking"
 def _sig(v, beh):
     # which extension set / type / payload: the sender class is left out on purpose (a manager that
     # mishandles a payload does so for every sender it accepts; one finding per handler gap)
-    return f"C08:{v['prop']}:{beh['ext']}:{v['t']}/{v['p']}"
+    # an IQ whose id collides with an outstanding tracked request of the client is a different input class
+    return f"C08:{v['prop']}:{beh['ext']}:{v['t']}/{v['p']}" + (":idOfPendingRequest" if v.get("coll") else "")
 
 
 def run(chk, replay=None):
@@ -21,15 +22,21 @@ def run(chk, replay=None):
         behs = [b for b in replaycache.read(replay) if "steps" in b]
     else:
         tour, st1 = vf.tlc_gen("IqDispatchGen.tla", "IqDispatchGenTour.cfg" if quick else "IqDispatchGenTourIds.cfg")
+        # the client has a tracked request of its own outstanding (id collisions): tour over a representative payload subset
+        pend, st1p = vf.tlc_gen("IqDispatchGen.tla", "IqDispatchGenPend.cfg")
         allp, st2 = vf.tlc_gen("IqDispatchGen.tla", "IqDispatchGenAll.cfg")
         if not quick:
             allp5, st25 = vf.tlc_gen("IqDispatchGen.tla", "IqDispatchGenAll5.cfg")
             allp += allp5
             st2 = {"depth3": st2, "depth4": st25}
-        sim, st3 = vf.tlc_simulate("IqDispatchGen.tla", "IqDispatchGenTourIds.cfg", num=300 if quick else 20000, depth=12,
+        sim, st3 = vf.tlc_simulate("IqDispatchGen.tla", "IqDispatchGenSim.cfg", num=300 if quick else 20000, depth=12,
                                    seed=chk.seed, workers=2)
-        behs = vf.maximal_behaviours(tour + allp + sim)
-        chk.cov["generation"] = {"tour": st1, "all_paths": st2, "simulate": st3}
+        # random sequences in which a tracked request is always outstanding (re-issued after it completes)
+        simp, st3p = vf.tlc_simulate("IqDispatchGen.tla", "IqDispatchGenSimPend.cfg", num=200 if quick else 10000, depth=12,
+                                     seed=chk.seed, workers=2)
+        behs = vf.maximal_behaviours(tour + pend + allp + sim + simp)
+        chk.cov["generation"] = {"tour": st1, "tour_pending_request": st1p, "all_paths": st2, "simulate": st3,
+                                 "simulate_pending_request": st3p}
     vf.write_ndjson(chk.path("behaviours.ndjson"), behs)
     # 3. replay on the real client
     trace = chk.path("trace.ndjson")
@@ -42,11 +49,19 @@ def run(chk, replay=None):
     s = vf.tlc_trace("IqDispatchTrace.tla", "IqDispatchTrace.cfg", trace)
     chk.cov["traces_validated_against_impl"] = s["cases"]
     chk.cov["trace_lines"] = s["lines"]
-    chk.cov["iqs_injected"] = s["lines"] - s["cases"]
+    chk.cov["iqs_injected"] = s["lines"] - s["cases"] - s["tracked"]
     chk.cov["iq_requests"] = s["requests"]
     chk.cov["iq_responses"] = s["responses"]
     chk.cov["iq_other_type"] = s["othertype"]
     chk.cov["streams_closed_by_client"] = s["closed"]
+    chk.cov["tracked_requests_issued"] = s["tracked"]
+    chk.cov["iqs_with_id_of_pending_request"] = s["idcollisions"]
+    chk.cov["pending_tasks_completed"] = s["taskdone"]
+    if s["taskdonebyrequest"]:
+        chk.note(f"{s['taskdonebyrequest']} injected IQs that are not responses completed the client's outstanding request "
+                 "(conformance warning; the clause belongs to C07)")
+    if not replay and s["idcollisions"] == 0:
+        raise vf.MachineryError("no IQ was injected with the id of an outstanding request: the pending-request dimension is vacuous")
     chk.cov["iq_property_failures"] = s["nviol"]
     chk.cov["diverged_executions"] = s["ndiv"]
     chk.cov["first_divergences"] = s["divs"][:3]
@@ -75,19 +90,26 @@ def run(chk, replay=None):
     reported = set()
     for sig, e in sorted(seen.items(), key=lambda kv: (order.get(kv[1]["b"]["ext"], 9), kv[0])):
         v, b, ln = e["v"], e["b"], e["ln"]
-        key = (v["prop"], v["t"], v["p"])
+        key = (v["prop"], v["t"], v["p"], bool(v.get("coll")))
         if key in reported:
             continue      # the same gap shows with a larger extension set too
         reported.add(key)
         what = {"RequestAnswered": f"an IQ request got {v['n']} replies instead of exactly one",
                 "ResponseNotAnswered": f"an IQ response was answered ({v['n']} replies)",
                 "NoReplyLoop": f"an IQ without a valid type got {v['n']} replies"}[v["prop"]]
-        chk.violation(sig, f"{what}: extensions={b['ext']} type={ln['x']['type']!r} payload={v['p']} "
-                           f"senders={sorted(e['senders'])}; injected {ln['raw']}; sent back {ln['out']}",
+        coll = (f" while the client's own tracked request with the same id to the {v['peer']} JID was outstanding"
+                if v.get("coll") else "")
+        chk.violation(sig, f"{what}{coll}: extensions={b['ext']} type={ln['x']['type']!r} payload={v['p']} "
+                           f"senders={sorted(e['senders'])}; injected {ln['raw']}; sent back {ln['out']}; "
+                           f"own task completed {ln.get('tdone', 0)}x",
                       [b] + cases[v["case"]])
     chk.cov["distinct_violating_inputs"] = len(reported)
     chk.assumptions += ["a reply without `to` reaches a sender that is the user's server or own bare JID (handled by the server "
                         "on behalf of the account); for every other sender `to` must equal the sender",
+                        "at most one tracked request of the client's own is outstanding at a time (QXmppClient::sendIq, disco#info "
+                        "get); id collisions are explored for a representative payload subset (none, unknown, version, vcard, "
+                        "discoInfo, roster, ibbData, errorOnly) x all types x all sender classes x 4 peers x extension sets none/all, and by random sequences "
+                        "over the full vocabulary",
                         "all bundled managers answer synchronously or from posted events; the event loop is drained after "
                         "every injection (no manager defers its reply to a timer or socket)",
                         "managers that need external state to accept a request (file-transfer jobs, joined MUC rooms, RPC "
